@@ -7,6 +7,7 @@ import PasfmtModel.Proofs.PipelineC07
 import PasfmtModel.Model.Contracts
 import PasfmtModel.Proofs.WrapStageProps
 import PasfmtModel.Proofs.PipelineFullProps
+import PasfmtModel.Proofs.ToggleSpec
 
 namespace Pasfmt.C07
 
@@ -143,5 +144,228 @@ example : parseToggle [47, 47, 32, 112, 97, 115, 102, 109, 116, 111, 102, 102] =
 example : parseToggle [47, 32, 112, 97, 115, 102, 109, 116, 32, 111, 102, 102] = none := by decide +kernel
 -- '{$pasfmt off}'
 example : parseToggle [123, 36, 112, 97, 115, 102, 109, 116, 32, 111, 102, 102, 125] = none := by decide +kernel
+
+/-! ## Which tokens are marked: declarative characterisations of the two ignorers
+
+Proofs in `Proofs/ToggleSpec.lean`; every statement holds for every input (induction on the text / the token list).
+The `example`s are tests on concrete inputs (byte strings are written out; the text is in the comment above each). -/
+
+/-- **The toggle is recognised in `//`, `{ }` and `(* *)` comments, case-insensitively, only for the exact words.**
+    `parseToggle c = some tg` iff `c` is: an opener `//`, `(*` or `{`; any ASCII blanks; `pasfmt` in any letter case;
+    at least one ASCII blank; then `on` / `off` in any letter case as the *whole* run of ASCII letters and digits at
+    that place (see `IsToggle` for the definition and for what happens at the edges: `///` and `{$` are not accepted,
+    `on1`/`ONx`/`offf` are not, `on.`/`on_`/`on)` are). -/
+theorem toggle_spec (c : Bytes) (tg : Toggle) : parseToggle c = some tg ↔ IsToggle c tg :=
+  Pasfmt.toggle_spec c tg
+
+example : IsToggle [47, 47, 32, 112, 97, 115, 102, 109, 116, 32, 111, 102, 102] /- // pasfmt off -/ .off := (toggle_spec _ _).mp (by decide +kernel)
+example : IsToggle [123, 32, 80, 65, 83, 70, 77, 84, 32, 32, 32, 79, 110, 32, 125] /- { PASFMT   On } -/ .on := (toggle_spec _ _).mp (by decide +kernel)
+example : IsToggle [40, 42, 112, 97, 115, 102, 109, 116, 32, 111, 102, 102, 42, 41] /- (*pasfmt off*) -/ .off := (toggle_spec _ _).mp (by decide +kernel)
+example : ¬ IsToggle [47, 47, 32, 112, 97, 115, 102, 109, 116, 32, 111, 102, 102, 105, 99, 101] /- // pasfmt office -/ .off := fun h => absurd ((toggle_spec _ _).mpr h) (by decide +kernel)
+-- the decomposition given by hand: '(*' ++ ' ' ++ 'PasFmt' ++ '\t ' ++ 'oFF' ++ '*)'
+example : IsToggle ([40, 42] /- (* -/ ++ [32] /-   -/ ++ [80, 97, 115, 70, 109, 116] /- PasFmt -/ ++ [9, 32] /- \t  -/ ++ [111, 70, 70] /- oFF -/ ++ [42, 41] /- *) -/) .off :=
+  ⟨[40, 42] /- (* -/, [32] /-   -/, [80, 97, 115, 70, 109, 116] /- PasFmt -/, [9, 32] /- \t  -/, [111, 70, 70] /- oFF -/, [42, 41] /- *) -/, rfl, by decide, by decide, by decide, by decide,
+    by decide, by decide, fun _ _ h => by cases h; rfl, by decide⟩
+-- what the model does at the edges (the model is the ground truth; see the doc comment of `IsToggle`)
+example : parseToggle [47, 47, 47, 32, 112, 97, 115, 102, 109, 116, 32, 111, 102, 102] /- /// pasfmt off -/ = none := by decide +kernel
+example : parseToggle [40, 42, 36, 112, 97, 115, 102, 109, 116, 32, 111, 102, 102, 42, 41] /- (*$pasfmt off*) -/ = none := by decide +kernel
+example : parseToggle [123, 36, 112, 97, 115, 102, 109, 116, 32, 111, 102, 102, 125] /- {$pasfmt off} -/ = none := by decide +kernel
+example : parseToggle [47, 47, 32, 112, 97, 115, 102, 109, 116, 32, 79, 78, 120] /- // pasfmt ONx -/ = none := by decide +kernel
+example : parseToggle [47, 47, 32, 112, 97, 115, 102, 109, 116, 32, 111, 110, 49] /- // pasfmt on1 -/ = none := by decide +kernel
+example : parseToggle [47, 47, 32, 112, 97, 115, 102, 109, 116, 32, 111, 110, 46] /- // pasfmt on. -/ = some .on := by decide +kernel
+example : parseToggle [47, 47, 32, 112, 97, 115, 102, 109, 116, 32, 111, 110, 95] /- // pasfmt on_ -/ = some .on := by decide +kernel
+example : parseToggle [123, 32, 112, 97, 115, 102, 109, 116, 32, 111, 110, 125] /- { pasfmt on} -/ = some .on := by decide +kernel
+example : parseToggle [40, 42, 112, 97, 115, 102, 109, 116, 32, 111, 110, 42, 41] /- (*pasfmt on*) -/ = some .on := by decide +kernel
+example : parseToggle [47, 47, 32, 112, 97, 115, 102, 109, 116, 32, 111, 110, 195, 169] /- // pasfmt oné -/ = some .on := by decide +kernel
+example : parseToggle [47, 47, 32, 112, 97, 115, 102, 109, 116, 11, 111, 110] /- // pasfmt\x0bon -/ = none := by decide +kernel
+example : parseToggle [123, 10, 32, 32, 112, 97, 115, 102, 109, 116, 13, 10, 32, 32, 111, 102, 102, 10, 125] /- {\n  pasfmt\r\n  off\n} -/ = some .off := by decide +kernel
+
+/-- **Case-insensitively**: two comments that differ only in the case of ASCII letters (of `pasfmt`, of `on`/`off`,
+    or anywhere else) get the same answer. -/
+theorem toggle_case_insensitive (c c' : Bytes) (h : asciiLower c' = asciiLower c) : parseToggle c' = parseToggle c :=
+  Pasfmt.toggle_case_insensitive c c' h
+
+example : parseToggle [47, 47, 32, 80, 97, 83, 102, 77, 116, 32, 79, 102, 70] /- // PaSfMt OfF -/ = parseToggle [47, 47, 32, 112, 97, 115, 102, 109, 116, 32, 111, 102, 102] /- // pasfmt off -/ :=
+  toggle_case_insensitive _ _ (by decide +kernel)
+
+/-- **Only for the exact words**: with opener, blanks, `pasfmt` and the whole blank run `w2` in place, let `word` be the
+    whole run of ASCII letters and digits that follows; if it spells neither `on` nor `off` the comment is not a toggle
+    (`pasfmt only`, `pasfmt offf`, `pasfmt o`, `pasfmt on1`, …). -/
+theorem toggle_exact_words (p w1 kw w2 word rest : Bytes)
+    (hp : IsCommentOpener p) (hw1 : AllBytes isAsciiWs w1) (hkw : SpellsIC kw kwPasfmt)
+    (hw2 : AllBytes isAsciiWs w2) (hne : w2 ≠ []) (hmax : ∀ b t, word ++ rest = b :: t → isAsciiWs b = false)
+    (hword : AllBytes isAlnum word) (hrest : ∀ b t, rest = b :: t → isAlnum b = false)
+    (hon : ¬ SpellsIC word (toggleWord .on)) (hoff : ¬ SpellsIC word (toggleWord .off)) :
+    parseToggle (p ++ w1 ++ kw ++ w2 ++ word ++ rest) = none :=
+  Pasfmt.toggle_exact_words p w1 kw w2 word rest hp hw1 hkw hw2 hne hmax hword hrest hon hoff
+
+/-- the same as an equivalence: such a comment is an `on` (`off`) toggle exactly when `word` spells `on` (`off`) -/
+theorem toggle_word_iff (p w1 kw w2 word rest : Bytes) (tg : Toggle)
+    (hp : IsCommentOpener p) (hw1 : AllBytes isAsciiWs w1) (hkw : SpellsIC kw kwPasfmt)
+    (hw2 : AllBytes isAsciiWs w2) (hne : w2 ≠ []) (hmax : ∀ b t, word ++ rest = b :: t → isAsciiWs b = false)
+    (hword : AllBytes isAlnum word) (hrest : ∀ b t, rest = b :: t → isAlnum b = false) :
+    parseToggle (p ++ w1 ++ kw ++ w2 ++ word ++ rest) = some tg ↔ SpellsIC word (toggleWord tg) :=
+  Pasfmt.toggle_word_iff p w1 kw w2 word rest tg hp hw1 hkw hw2 hne hmax hword hrest
+
+example : parseToggle [47, 47, 32, 112, 97, 115, 102, 109, 116, 32, 111, 110, 108, 121] /- // pasfmt only -/ = none := by decide +kernel
+example : parseToggle [47, 47, 32, 112, 97, 115, 102, 109, 116, 32, 111, 102, 102, 102] /- // pasfmt offf -/ = none := by decide +kernel
+example : parseToggle [47, 47, 32, 112, 97, 115, 102, 109, 116, 32, 111] /- // pasfmt o -/ = none := by decide +kernel
+
+/-- **In `//`, `{ }` and `(* *)` comments**: the text after each of the three openers is read by the same rule … -/
+theorem toggle_three_comment_forms (body : Bytes) :
+    parseToggle ([0x2F, 0x2F] ++ body) = parseToggle ([0x7B] ++ body) ∧
+    parseToggle ([0x28, 0x2A] ++ body) = parseToggle ([0x7B] ++ body) :=
+  Pasfmt.toggle_three_comment_forms body
+
+/-- … and nothing that starts otherwise is a toggle. -/
+theorem toggle_only_comment_forms (c : Bytes) (tg : Toggle) (h : parseToggle c = some tg) :
+    ∃ p body, IsCommentOpener p ∧ c = p ++ body :=
+  Pasfmt.toggle_only_comment_forms c tg h
+
+example : parseToggle [47, 47, 112, 97, 115, 102, 109, 116, 32, 111, 102, 102] /- //pasfmt off -/ = some .off ∧ parseToggle [123, 112, 97, 115, 102, 109, 116, 32, 111, 102, 102] /- {pasfmt off -/ = some .off ∧
+    parseToggle [40, 42, 112, 97, 115, 102, 109, 116, 32, 111, 102, 102] /- (*pasfmt off -/ = some .off ∧ parseToggle [112, 97, 115, 102, 109, 116, 32, 111, 102, 102] /- pasfmt off -/ = none ∧
+    parseToggle [39, 112, 97, 115, 102, 109, 116, 32, 111, 102, 102, 39] /- 'pasfmt off' -/ = none := by decide +kernel
+
+/-- **From a `pasfmt off` comment up to and including the next `pasfmt on` comment, or the end of the file.**
+    For every token list: position `i` is marked by the toggler iff it holds a token and either that token is itself a
+    toggle comment (a comment token whose text `IsToggle`; `on` or `off`), or there is an `off` toggle comment at some
+    `j < i` with no toggle comment strictly between `j` and `i`.  So: the `off` comment, everything after it, and the
+    closing `on` comment are marked; a lone `on` comment is marked itself and marks nothing after it
+    (`toggler_lone_on`); a second `off` inside a region changes nothing (`toggler_off_region`); a region that is not
+    closed includes the last token of the file, the end-of-file token (`toggler_region_to_eof`). -/
+theorem toggler_regions (toks : List Tok) (i : Nat) :
+    (togglerMarks toks)[i]? = some true ↔
+      ∃ t, toks[i]? = some t ∧ ((∃ tg, IsToggleTok t tg) ∨
+        ∃ j tj, j < i ∧ toks[j]? = some tj ∧ IsToggleTok tj .off ∧
+          ∀ k t, j < k → k < i → toks[k]? = some t → ∀ tg, ¬ IsToggleTok t tg) :=
+  Pasfmt.toggler_regions toks i
+
+/-- one mark per token -/
+theorem togglerMarks_length (toks : List Tok) : (togglerMarks toks).length = toks.length :=
+  Pasfmt.togglerMarks_length toks
+
+/-- from an `off` comment at `j` every token up to `i` is marked if no `on` comment lies strictly between (the `off`
+    comment itself: `i = j`; further `off` comments in between do not matter) -/
+theorem toggler_off_region (toks : List Tok) (j i : Nat) (tj : Tok) (hj : toks[j]? = some tj)
+    (hoff : IsToggleTok tj .off) (hji : j ≤ i) (hi : i < toks.length)
+    (hnoon : ∀ k t, j < k → k < i → toks[k]? = some t → ¬ IsToggleTok t .on) :
+    (togglerMarks toks)[i]? = some true :=
+  Pasfmt.toggler_off_region toks j i tj hj hoff hji hi hnoon
+
+/-- an `off` comment with no `on` comment after it: everything from it to the end is marked, the last token included -/
+theorem toggler_region_to_eof (toks : List Tok) (j : Nat) (tj : Tok) (hj : toks[j]? = some tj)
+    (hoff : IsToggleTok tj .off) (hnoon : ∀ k t, j < k → toks[k]? = some t → ¬ IsToggleTok t .on) :
+    (∀ i, j ≤ i → i < toks.length → (togglerMarks toks)[i]? = some true) ∧
+    (togglerMarks toks)[toks.length - 1]? = some true :=
+  Pasfmt.toggler_region_to_eof toks j tj hj hoff hnoon
+
+/-- after an `on` comment at `j`, a token at `i > j` that is not a toggle comment is not marked if no `off` comment
+    lies between: code after the region is formatted again -/
+theorem toggler_on_region (toks : List Tok) (j i : Nat) (tj ti : Tok) (hj : toks[j]? = some tj)
+    (hon : IsToggleTok tj .on) (hji : j < i) (hi : toks[i]? = some ti) (hti : ∀ tg, ¬ IsToggleTok ti tg)
+    (hnooff : ∀ k t, j < k → k < i → toks[k]? = some t → ¬ IsToggleTok t .off) :
+    (togglerMarks toks)[i]? = some false :=
+  Pasfmt.toggler_on_region toks j i tj ti hj hon hji hi hti hnooff
+
+/-- up to the first toggle comment nothing is marked -/
+theorem toggler_before_first (toks : List Tok) (i : Nat) (hi : i < toks.length)
+    (hnone : ∀ k t, k ≤ i → toks[k]? = some t → ∀ tg, ¬ IsToggleTok t tg) :
+    (togglerMarks toks)[i]? = some false :=
+  Pasfmt.toggler_before_first toks i hi hnone
+
+/-- a lone `on` comment (the only toggle comment of the file) is marked itself and marks nothing else -/
+theorem toggler_lone_on (toks : List Tok) (j : Nat) (tj : Tok) (hj : toks[j]? = some tj) (hon : IsToggleTok tj .on)
+    (honly : ∀ k t, k ≠ j → toks[k]? = some t → ∀ tg, ¬ IsToggleTok t tg) (i : Nat) (hi : i < toks.length) :
+    (togglerMarks toks)[i]? = some true ↔ i = j :=
+  Pasfmt.toggler_lone_on toks j tj hj hon honly i hi
+
+/-- test tokens: an identifier, a line comment, a block comment, a directive, the end-of-file token -/
+private def tId (s : Bytes) : Tok := { ws := [], content := s, kind := .tIdentifier }
+private def tLc (s : Bytes) : Tok := { ws := [], content := s, kind := .tComment .cIndividualLine }
+private def tBc (s : Bytes) : Tok := { ws := [], content := s, kind := .tComment .cInlineBlock }
+private def tDir (s : Bytes) : Tok := { ws := [], content := s, kind := .tCompilerDirective }
+private def tEnd : Tok := { ws := [], content := [], kind := .tEof }
+
+-- a  // pasfmt off  b  { PASFMT   On }  c  <eof>
+example : togglerMarks [tId [97] /- a -/, tLc [47, 47, 32, 112, 97, 115, 102, 109, 116, 32, 111, 102, 102] /- // pasfmt off -/, tId [98] /- b -/, tBc [123, 32, 80, 65, 83, 70, 77, 84, 32, 32, 32, 79, 110, 32, 125] /- { PASFMT   On } -/, tId [99] /- c -/, tEnd]
+    = [false, true, true, true, false, false] := by decide +kernel
+-- a  (*pasfmt off*)  b  <eof>       (the region runs to the end of the file and includes the end-of-file token)
+example : togglerMarks [tId [97] /- a -/, tBc [40, 42, 112, 97, 115, 102, 109, 116, 32, 111, 102, 102, 42, 41] /- (*pasfmt off*) -/, tId [98] /- b -/, tEnd] = [false, true, true, true] := by
+  decide +kernel
+-- a  // pasfmt on  b  <eof>         (a lone `on` is marked itself, nothing else)
+example : togglerMarks [tId [97] /- a -/, tLc [47, 47, 32, 112, 97, 115, 102, 109, 116, 32, 111, 110] /- // pasfmt on -/, tId [98] /- b -/, tEnd] = [false, true, false, false] := by
+  decide +kernel
+-- // pasfmt off  a  // pasfmt off  b  // pasfmt on  c  // pasfmt office  <eof>
+example : togglerMarks [tLc [47, 47, 32, 112, 97, 115, 102, 109, 116, 32, 111, 102, 102] /- // pasfmt off -/, tId [97] /- a -/, tLc [47, 47, 32, 112, 97, 115, 102, 109, 116, 32, 111, 102, 102] /- // pasfmt off -/, tId [98] /- b -/, tLc [47, 47, 32, 112, 97, 115, 102, 109, 116, 32, 111, 110] /- // pasfmt on -/,
+    tId [99] /- c -/, tLc [47, 47, 32, 112, 97, 115, 102, 109, 116, 32, 111, 102, 102, 105, 99, 101] /- // pasfmt office -/, tEnd] = [true, true, true, true, true, false, false, false] := by decide +kernel
+-- a token that is not a comment is never a toggle, whatever its text: {pasfmt off} typed as a directive
+example : togglerMarks [tDir [123, 112, 97, 115, 102, 109, 116, 32, 111, 102, 102, 125] /- {pasfmt off} -/, tId [97] /- a -/, tEnd] = [false, false, false] := by decide +kernel
+
+/-- **The instruction lines of `asm ... end` blocks**: the asm ignorer marks exactly the token indices listed in the
+    lines that the parser typed `AsmInstruction`. -/
+theorem asm_marks_spec (lines : List Line) (i : Nat) :
+    i ∈ asmMarked lines ↔ ∃ l ∈ lines, l.ltype = .lAsmInstruction ∧ i ∈ l.tokens :=
+  Pasfmt.asm_marks_spec lines i
+
+example : asmMarked [⟨none, 0, [0, 1], .lUnknown⟩, ⟨none, 1, [2, 3, 4], .lAsmInstruction⟩, ⟨none, 0, [5], .lEof⟩] = [2, 3, 4] := by
+  decide
+
+/-- **Both ignorers together** (the marks `C07_format` speaks about): there is one mark per token, and position `i` is
+    marked iff it holds a token that is a toggle comment, or whose nearest earlier toggle comment is an `off`
+    (`AfterOff`), or that belongs to an `AsmInstruction` line. -/
+theorem ignoredMarks_spec (toks : List Tok) (lines : List Line) (i : Nat) :
+    (ignoredMarks toks lines).length = toks.length ∧
+    ((ignoredMarks toks lines)[i]? = some true ↔
+      ∃ t, toks[i]? = some t ∧ ((∃ tg, IsToggleTok t tg) ∨ AfterOff toks i ∨
+        ∃ l ∈ lines, l.ltype = .lAsmInstruction ∧ i ∈ l.tokens)) :=
+  ⟨Pasfmt.ignoredMarks_length toks lines, Pasfmt.ignoredMarks_spec toks lines i⟩
+
+/-- the marks of the pipeline (`(preWrap O raw).1`, the hypothesis `hmark` of `C07_format`) are these marks, for the
+    token kinds and lines of the parser -/
+theorem preWrap_marks_spec (O : Oracles) (raw : List RawTok) (i : Nat) :
+    (preWrap O raw).1.getD i false = true ↔
+      ∃ t, (retype raw (O.parser raw).kinds)[i]? = some t ∧ ((∃ tg, IsToggleTok t tg) ∨
+        AfterOff (retype raw (O.parser raw).kinds) i ∨
+        ∃ l ∈ (O.parser raw).lines, l.ltype = .lAsmInstruction ∧ i ∈ l.tokens) := by
+  rw [getD_false_eq_true_iff]
+  exact Pasfmt.ignoredMarks_spec _ _ i
+
+-- a  // pasfmt off  b  // pasfmt on  c  d  <eof>, the line of `c d` typed as an asm instruction;
+-- an index beyond the tokens is dropped
+example : ignoredMarks [tId [97] /- a -/, tLc [47, 47, 32, 112, 97, 115, 102, 109, 116, 32, 111, 102, 102] /- // pasfmt off -/, tId [98] /- b -/, tLc [47, 47, 32, 112, 97, 115, 102, 109, 116, 32, 111, 110] /- // pasfmt on -/, tId [99] /- c -/, tId [100] /- d -/, tEnd]
+    [⟨none, 0, [4, 5, 9], .lAsmInstruction⟩] = [false, true, true, true, true, true, false] := by decide +kernel
+
+/-- **Code outside these regions is still formatted** (on the model): a token whose mark is `false` enters the rules
+    with `ignored = false`, so nothing protects it — `set_content` is accepted and the spacing, wrapping and
+    reconstruction rules treat it as any token (the `ignored` flag is the only thing the later stages look at). -/
+theorem unmarked_still_formatted (toks : List Tok) (marks : List Bool) (i : Nat) (ft : FTok)
+    (h : (FT.new toks (fun i => marks.getD i false))[i]? = some ft) (hm : marks[i]? = some false) :
+    ft.fmt.ignored = false :=
+  Pasfmt.unmarked_still_formatted toks marks i ft h hm
+
+/-- in general the flag is the mark, and the token is the scanned token -/
+theorem new_ignored_eq_mark (toks : List Tok) (marks : List Bool) (i : Nat) (ft : FTok)
+    (h : (FT.new toks (fun i => marks.getD i false))[i]? = some ft) :
+    ft.fmt.ignored = marks.getD i false ∧ toks[i]? = some ft.tok :=
+  Pasfmt.FT_new_ignored toks marks i ft h
+
+example : (FT.new [tId [97] /- a -/, tLc [47, 47, 32, 112, 97, 115, 102, 109, 116, 32, 111, 102, 102] /- // pasfmt off -/, tId [98] /- b -/] (fun i => [false, true, true].getD i false)).map (·.fmt.ignored)
+    = [false, true, true] := by decide +kernel
+
+/-- **The void step**: a line is voided (type `Voided`, token list emptied, so that no line formatter touches it)
+    exactly when at least one token of the file is marked and every token of the line is marked (`Voided`) — in
+    particular a line without tokens is voided as soon as anything in the file is marked; every other line is passed on
+    unchanged, and the number of lines does not change. -/
+theorem voidLines_spec (marks : List Bool) (lines : List Line) (n : Nat) (l : Line) (hl : lines[n]? = some l) :
+    (voidLines marks lines).length = lines.length ∧
+    (Voided marks l → (voidLines marks lines)[n]? = some { l with ltype := .lVoided, tokens := [] }) ∧
+    (¬ Voided marks l → (voidLines marks lines)[n]? = some l) :=
+  ⟨Pasfmt.voidLines_length marks lines, Pasfmt.voidLines_spec marks lines n l hl⟩
+
+example : voidLines [false, true, true, false]
+      [⟨none, 0, [0, 1], .lUnknown⟩, ⟨none, 0, [1, 2], .lUnknown⟩, ⟨none, 0, [], .lUnknown⟩, ⟨none, 0, [3], .lEof⟩]
+    = [⟨none, 0, [0, 1], .lUnknown⟩, ⟨none, 0, [], .lVoided⟩, ⟨none, 0, [], .lVoided⟩, ⟨none, 0, [3], .lEof⟩] := by decide
+example : voidLines [false, false] [⟨none, 0, [], .lUnknown⟩, ⟨none, 0, [0, 1], .lUnknown⟩]
+    = [⟨none, 0, [], .lUnknown⟩, ⟨none, 0, [0, 1], .lUnknown⟩] := by decide
 
 end Pasfmt.C07
